@@ -298,15 +298,21 @@ pub fn run(ctx: &Ctx, replay: Option<&J>) -> i32 {
             let rev = format!("[{}, {}]", b, a);
             match &rows[i].sorts[j] {
                 None => v("sort-fails", i, j, None, "a list".into(), "error".into()),
-                Some(sv) => {
-                    let expect = match rcmp {
-                        Some(Ordering::Greater) => &rev,
-                        _ => &fwd, // stable: equal or unordered keeps input order
-                    };
-                    if sv != expect {
-                        v("sort-pair", i, j, None, expect.clone(), sv.clone());
+                Some(sv) => match rcmp {
+                    // comparable: non-decreasing, and stable when equal
+                    Some(o) => {
+                        let expect = if o == Ordering::Greater { &rev } else { &fwd };
+                        if sv != expect {
+                            v("sort-pair", i, j, None, expect.clone(), sv.clone());
+                        }
                     }
-                }
+                    // not mutually comparable: any permutation
+                    None => {
+                        if sv != &fwd && sv != &rev {
+                            v("sort-pair", i, j, None, format!("{} or {}", fwd, rev), sv.clone());
+                        }
+                    }
+                },
             }
         }
     }
